@@ -4,6 +4,7 @@ package sio
 
 import (
 	"context"
+	"encoding/json"
 	"strconv"
 
 	"github.com/Comcast/sheens/core"
@@ -94,4 +95,65 @@ func VerifC14Long() {
 	}
 	verif.Assert("each-emission-reported-once", reported == n)
 	verif.Reach("long-done")
+}
+
+// VerifC14Captain: a crew that changes while a message is being processed: machine "a" emits a request to
+// the captain that creates machine "x" (or deletes machine "b"), followed by a message addressed to that
+// machine.  Emitted messages are processed in order, each by the crew as it is when its turn comes: the
+// machine created by the first message receives the second exactly once; a machine deleted by the first
+// never sees the second.
+func VerifC14Captain() {
+	verif.MapOrderInsertion(true)
+	ctx := context.Background()
+	log := &c14Log{}
+	c := &Crew{Conf: &CrewConf{Id: "c14c", Ctl: &core.Control{Limit: 10}}, Machines: map[string]*crew.Machine{},
+		changed: map[string]*Changed{}, previous: map[string]string{}}
+	c.timers = NewTimers(func(ctx context.Context, te *TimerEntry) {})
+	c.timers.c = c
+	verif.Assert("captain-set-up", c.SetMachine(ctx, CaptainMachine, nil, nil) == nil)
+	creates := verif.Choose("request", 2) == 0
+	var emits []interface{}
+	if creates {
+		// the spec of the new machine, as the JSON a message carries
+		js, err := json.Marshal(c15Spec("flip"))
+		verif.Assert("spec-serialisable", err == nil)
+		var inline interface{}
+		verif.Assert("spec-decodable", json.Unmarshal(js, &inline) == nil)
+		emits = []interface{}{
+			map[string]interface{}{"to": CaptainMachine, "update": map[string]interface{}{"x": map[string]interface{}{"spec": map[string]interface{}{"inline": inline}}}},
+			map[string]interface{}{"to": "x", "go": "now"},
+		}
+	} else {
+		emits = []interface{}{
+			map[string]interface{}{"to": CaptainMachine, "delete": []interface{}{"b"}},
+			map[string]interface{}{"to": "b", "k": 2.0, "tag": "late"},
+		}
+	}
+	c.Machines["a"] = &crew.Machine{Id: "a", Specter: recorderSpec("a", log, emits), State: &core.State{NodeName: "start", Bs: match.NewBindings()}}
+	c.Machines["b"] = &crew.Machine{Id: "b", Specter: recorderSpec("b", log, nil), State: &core.State{NodeName: "start", Bs: match.NewBindings()}}
+	r, err := c.ProcessMsg(ctx, map[string]interface{}{"to": "a", "k": 1.0, "tag": "top"})
+	verif.Assert("process-succeeds", err == nil && r != nil)
+	if r == nil {
+		return
+	}
+	verif.Assert("top-message-exactly-once", countReceipts(log, "a", "top") == 1)
+	if creates {
+		x, have := c.Machines["x"]
+		verif.Assert("requested-machine-exists", have && x != nil && x.State != nil)
+		if have && x != nil && x.State != nil {
+			// the new machine received the message addressed to it (once: it has moved exactly one node on)
+			verif.Assert("message-to-the-new-machine-delivered", x.State.NodeName == "s2")
+			verif.Assert("message-to-the-new-machine-bound", verif.JSONEqual(x.State.Bs["?x"], "now"))
+		}
+	} else {
+		_, have := c.Machines["b"]
+		verif.Assert("requested-machine-deleted", !have)
+		verif.Assert("deleted-machine-sees-nothing-more", countReceipts(log, "b", "late") == 0)
+	}
+	reported := 0
+	for _, batch := range r.Emitted {
+		reported += len(batch)
+	}
+	verif.Assert("each-emission-reported-once", reported == 2)
+	verif.Reach("captain-done")
 }
